@@ -185,10 +185,13 @@ CHECKS = {
         ],
     },
     "C04": {
-        "module": "Vanguard.Props.C04",
+        "module": "Vanguard.Props.C04e2e",      # imports Vanguard.Props.C04 (leaf theorems); same namespace
         "namespace": "Vanguard.C04",
         "streams": ["codes", "percent", "e2e"],
-        "partial": "",
+        "partial": "the relay of an RPC error through the response path (first reported end = what the client reads, final; sources: backend trailers, "
+                   "response head, end-of-stream message, the transcoder itself) is proved for gRPC, gRPC-Web and Connect-streaming clients in every "
+                   "state and for unary Connect clients under the hypothesis that the head has not been sent yet (their response is buffered; not "
+                   "proved as a whole-run invariant); REST clients and the encodings of details (JSON, base64, protobuf Any) are outside the theorems",
         "assumptions": [
             "JSON / protobuf / base64 encodings of error details are external (round-trip assumed, exercised by e2e stream)",
         ],
